@@ -56,6 +56,10 @@ def _tx_events(args):
         root = "".join(rnd.choice("ACGT") for _ in range(G))
         cds = cds_blocks(blocks, st, *cacb) if cacb else None
         tx = mk_tx(blocks, st, cds, root if rnd.random() < 0.7 else None)
+        if rnd.random() < 0.3:  # a transcript that has already been asked everything else
+            E.warm(tx)
+            if tx.cds is not None:
+                E.warm(tx.cds)
         n = len(tx)
         m = sum(b[1] - b[0] for b in cds) if cds else 0
         rng_p = range(-1, G + 1)
